@@ -35,6 +35,7 @@ from typing import Any
 
 from happysimulator.core.entity import Entity
 from happysimulator.core.event import Event
+from happysimulator.core.sim_future import SimFuture
 
 logger = logging.getLogger(__name__)
 
@@ -190,7 +191,7 @@ class RWLock(Entity):
         self._write_acquisitions += 1
         return True
 
-    def acquire_read(self) -> Generator[float]:
+    def acquire_read(self) -> Generator[float | SimFuture]:
         """Acquire a read lock, blocking if necessary.
 
         Blocks if a writer holds the lock or a writer is waiting.
@@ -207,9 +208,11 @@ class RWLock(Entity):
         enqueue_time = self._clock.now.nanoseconds if self._clock else 0
 
         acquired = [False]
+        wake = SimFuture()
 
         def on_wake():
             acquired[0] = True
+            wake.resolve()
 
         waiter = _Waiter(
             waiter_type=_WaiterType.READER,
@@ -218,8 +221,9 @@ class RWLock(Entity):
         )
         self._waiters.append(waiter)
 
+        # Park until woken: a blocked acquirer consumes no simulated activity
         while not acquired[0]:
-            yield 0.0
+            yield wake
 
         self._read_acquisitions += 1
 
@@ -227,7 +231,7 @@ class RWLock(Entity):
             wait_time = self._clock.now.nanoseconds - enqueue_time
             self._total_read_wait_ns += wait_time
 
-    def acquire_write(self) -> Generator[float]:
+    def acquire_write(self) -> Generator[float | SimFuture]:
         """Acquire a write lock, blocking if necessary.
 
         Blocks if any readers or another writer holds the lock.
@@ -244,9 +248,11 @@ class RWLock(Entity):
         enqueue_time = self._clock.now.nanoseconds if self._clock else 0
 
         acquired = [False]
+        wake = SimFuture()
 
         def on_wake():
             acquired[0] = True
+            wake.resolve()
 
         waiter = _Waiter(
             waiter_type=_WaiterType.WRITER,
@@ -255,8 +261,9 @@ class RWLock(Entity):
         )
         self._waiters.append(waiter)
 
+        # Park until woken: a blocked acquirer consumes no simulated activity
         while not acquired[0]:
-            yield 0.0
+            yield wake
 
         self._write_acquisitions += 1
 
